@@ -121,12 +121,16 @@ func init() {
 				panic(pathEnd{kind: "assume"})
 			}
 		case *Term:
-			r, _ := m.solver.Check(c, false)
-			if r == Unsat {
-				panic(pathEnd{kind: "assume"})
-			}
-			if r == Unknown {
-				m.note("unknown_assume", "assumption feasibility unknown; kept")
+			if m.model == nil || !m.evalBool(c) {
+				r, model := m.solver.Check(c, true)
+				if r == Unsat {
+					panic(pathEnd{kind: "assume"})
+				}
+				if r == Unknown {
+					m.note("unknown_assume", "assumption feasibility unknown; kept")
+					m.pcDoubt = true
+				}
+				m.setModel(model)
 			}
 			m.assertPC(c)
 		}
